@@ -20,7 +20,12 @@ int main(int argc, char** argv) {
     using Gudhi::numbers::Fake_uint128; Fake_uint128 a = (Fake_uint128(ah) << 64) + Fake_uint128(al), b = (Fake_uint128(bh) << 64) + Fake_uint128(bl);
     u128 na = ((u128)ah << 64) + al, nb = ((u128)bh << 64) + bl; bool got, want;
     if (op == "lt") { got = a < b; want = na < nb; } else if (op == "gt") { got = a > b; want = na > nb; } else if (op == "le") { got = a <= b; want = na <= nb; }
-    else if (op == "ge") { got = a >= b; want = na >= nb; } else if (op == "eq") { got = a == b; want = na == nb; } else if (op == "ne") { got = a != b; want = na != nb; } else return 3;
+    else if (op == "ge") { got = a >= b; want = na >= nb; } else if (op == "eq") { got = a == b; want = na == nb; } else if (op == "ne") { got = a != b; want = na != nb; }
+    else { unsigned sh = argc > 7 ? (unsigned)strtoul(argv[7], 0, 10) : 0; Fake_uint128 r; u128 w;
+      if (op == "add") { r = a + b; w = na + nb; } else if (op == "sub") { r = a - b; w = na - nb; } else if (op == "and") { r = a & b; w = na & nb; } else if (op == "or") { r = a | b; w = na | nb; }
+      else if (op == "not") { r = ~a; w = ~na; } else if (op == "shl" && sh < 128) { r = a << (uint8_t)sh; w = na << sh; } else if (op == "shr" && sh < 128) { r = a >> (uint8_t)sh; w = na >> sh; } else return 3;
+      bool same = ((r >> 64) == Fake_uint128((unsigned long long)(w >> 64))) && ((r & Fake_uint128(~0ull)) == Fake_uint128((unsigned long long)w));
+      printf("Fake_uint128 %s on (%llu,%llu) (%llu,%llu) shift %u: %s the native __int128 result\n", op.c_str(), ah, al, bh, bl, sh, same ? "equals" : "DIFFERS from"); return same ? 0 : 1; }
     printf("Fake_uint128 %s on (%llu,%llu) (%llu,%llu): real %d, native __int128 %d\n", op.c_str(), ah, al, bh, bl, got, want); return got == want ? 0 : 1; }
   if (w == "sparse") { float d = fbits(argv[3]), t = fbits(argv[4]); Mat m{d};
     Gudhi::ripser::Sparse_distance_matrix<P> s(m, t); bool kept = !s.neighbors[0].empty(); bool want = d <= t;
